@@ -30,7 +30,18 @@ def take():
 
 
 def run(op):
-    data = files.materialize(op["file"])
+    try:
+        data = files.materialize(op["file"])
+    except (KeyboardInterrupt, HarnessTimeout):
+        raise
+    except Exception as e:
+        if not env.raised_in_rv(e):
+            raise
+        # the library could not even build / save the background file (a generated one): no background
+        # load then; judging that is the business of the worlds that own saving, not of the noise
+        FIRED["background_file_unbuildable"] += 1
+        LOG.append((files.spec_label(op["file"]), "unbuildable:" + type(e).__name__))
+        return "unbuildable:" + type(e).__name__
     faults = []
     for f in op.get("faults", ()):
         if f["kind"] == "trunc_boundary":
